@@ -377,6 +377,31 @@ func TestC03Ex(t *testing.T) {
 			count++
 		}
 	}
+	// a back-reference reaching exactly one or two bytes before the start of the output, at produced counts
+	// around 32768 (the largest distance) and a few others, inside one long dynamic block
+	for _, base := range []int{1, 2, 255, 4096, 32768, 65536} {
+		for dp := -3; dp <= 2; dp++ {
+			prod := base + dp
+			if prod < 1 {
+				continue
+			}
+			for arg := 0; arg <= 1; arg++ {
+				plan := []synth.Run{{N: prod, Lit: 'x'}, {N: 1, Len: 10, Dist: 1}, {N: 300, Lit: 'y'}}
+				sy := &synth.Stream{Blocks: []synth.BlockSpec{{Type: 2, Plan: plan, Seed: uint64(prod), ExtraDist: 30, DistCode: 2, FreqSort: true}},
+					Fault: &synth.Fault{Kind: synth.FDistTooFar, Block: 0, At: prod, Arg: arg}, Tail: 600}
+				c := C03Case{Input: StreamSpec{Kind: "synth", Synth: sy}, Reads: []int{4096}}
+				done := begin("C03", c)
+				labels, nt, err := checkC03(c)
+				done()
+				if err != nil {
+					saveLast("C03", c, err)
+					t.Fatalf("C03 violated (distance just past the data produced, %d bytes produced): %v", prod, err)
+				}
+				stats.Record("C03", stats.Digest(c), nt, append(labels, "distance-just-past-start-enumeration"), func() any { return c })
+				count++
+			}
+		}
+	}
 	stats.Exhaustive("C03", fmt.Sprintf("every truncation point of %d fixed small valid streams (<= %d bytes) x {all at once, 1-byte source and 1-byte reads}", nstreams, limit), count)
 }
 
